@@ -5,11 +5,12 @@ package main
 
 import (
 	"fmt"
-	"strconv"
 	"go/constant"
 	"go/token"
 	"go/types"
+	"os"
 	"sort"
+	"strconv"
 	"strings"
 
 	"golang.org/x/tools/go/ssa"
@@ -33,15 +34,15 @@ const (
 type LValue struct {
 	SliceT Term // for elements addressed through a slice value: the slice and the relative index
 	RelIdx Term
-	Kind  int
-	Heap  string
-	Sort  string // sort of the heap's range (root value)
-	Base  Term
-	Idx   Term
-	Cell  *ssa.Alloc
-	Path  []int
-	RootT types.Type
-	T     types.Type
+	Kind   int
+	Heap   string
+	Sort   string // sort of the heap's range (root value)
+	Base   Term
+	Idx    Term
+	Cell   *ssa.Alloc
+	Path   []int
+	RootT  types.Type
+	T      types.Type
 }
 
 type State struct {
@@ -107,7 +108,7 @@ type Flag struct {
 	argV    []*Val
 	srcVals map[ssa.Value]bool // for local-name callees
 	desc    string
-	ret     bool       // retof(...): tracks the result of the last matching call
+	ret     bool // retof(...): tracks the result of the last matching call
 	retT    types.Type
 	sort    string
 }
@@ -126,52 +127,55 @@ type loopInfo struct {
 
 type FnCtx struct {
 	sortCtx
-	L        *Loaded
-	fn       *ssa.Function
-	spec     *FuncSpec
-	specs    *SpecSet
-	asserts  []Term
-	regs     map[ssa.Value]*Val
-	nfresh   int
-	heapSort map[string]string
-	entry    *State
-	obls     []*Obligation
-	flags    []*Flag
-	loops    map[*ssa.BasicBlock]*loopInfo
-	loopOrd  []*loopInfo
-	dry      bool
-	writesB  map[*ssa.BasicBlock]map[string]bool
-	cellsWB  map[*ssa.BasicBlock]map[*ssa.Alloc]bool
-	callsB   map[*ssa.BasicBlock]bool
-	curBlock *ssa.BasicBlock
-	cells    map[*ssa.Alloc]bool // allocs treated as local cells
-	ghosts   map[string]*Val
-	assumed  map[string]bool
-	implUsed map[string]*types.Named
-	funUsed  map[string]string // uninterpreted function decls
-	trusted  map[string]bool   // assumed contracts / observers used
-	names    map[string][]ssa.Value // source-level names -> values (DebugRef)
-	addrNames map[string][]ssa.Value // address-taken variables: name -> its address
-	houdini  []*candidate
-	retVals  []*retSite
-	strConst map[string]string
-	curPos   token.Pos
-	uid      string
-	inst     *clause // instance hypothesis (slots ... assume)
-	qDepth   int
-	qFacts   [][]Term
-	curLoop  *loopInfo
+	L          *Loaded
+	fn         *ssa.Function
+	spec       *FuncSpec
+	specs      *SpecSet
+	asserts    []Term
+	regs       map[ssa.Value]*Val
+	nfresh     int
+	heapSort   map[string]string
+	entry      *State
+	obls       []*Obligation
+	flags      []*Flag
+	loops      map[*ssa.BasicBlock]*loopInfo
+	loopOrd    []*loopInfo
+	dry        bool
+	writesB    map[*ssa.BasicBlock]map[string]bool
+	cellsWB    map[*ssa.BasicBlock]map[*ssa.Alloc]bool
+	callsB     map[*ssa.BasicBlock]bool
+	curBlock   *ssa.BasicBlock
+	cells      map[*ssa.Alloc]bool // allocs treated as local cells
+	ghosts     map[string]*Val
+	assumed    map[string]bool
+	implUsed   map[string]*types.Named
+	funUsed    map[string]string      // uninterpreted function decls
+	trusted    map[string]bool        // assumed contracts / observers used
+	names      map[string][]ssa.Value // source-level names -> values (DebugRef)
+	addrNames  map[string][]ssa.Value // address-taken variables: name -> its address
+	houdini    []*candidate
+	retVals    []*retSite
+	strConst   map[string]string
+	curPos     token.Pos
+	uid        string
+	inst       *clause // instance hypothesis (slots ... assume)
+	qDepth     int
+	qFacts     [][]Term
+	curLoop    *loopInfo
 	lemmasUsed []string
-	acts     map[string]Term // activation literal per named loop invariant
-	actOrder []string
-	assertBlk map[int]*ssa.BasicBlock
-	reachMemo map[[2]int]bool
-	heapTok   map[string]Term
-	assertAct map[int]string // assumption index -> name of the invariant/lemma/precondition it belongs to
-	atFns     map[string]string
-	virt      map[*ssa.Alloc][]*Val
-	exitBound map[*clause]*boundClause
-	virtAddr  map[*ssa.IndexAddr]virtCell
+	acts       map[string]Term // activation literal per named loop invariant
+	actOrder   []string
+	assertBlk  map[int]*ssa.BasicBlock
+	reachMemo  map[[2]int]bool
+	heapTok    map[string]Term
+	assertAct  map[int]string // assumption index -> name of the invariant/lemma/precondition it belongs to
+	atPrev     map[string]string
+	inl        *inlFrame // non-nil while a function literal is executed in place
+	inlSeq     int
+	atFns      map[string]string
+	virt       map[*ssa.Alloc][]*Val
+	exitBound  map[*clause]*boundClause
+	virtAddr   map[*ssa.IndexAddr]virtCell
 }
 
 type virtCell struct {
@@ -230,6 +234,7 @@ func (c *FnCtx) reset() {
 	c.heapTok = nil
 	c.assertAct = nil
 	c.atFns = nil
+	c.atPrev = nil
 	c.virt = nil
 	c.exitBound = nil
 	c.virtAddr = map[*ssa.IndexAddr]virtCell{}
@@ -1282,6 +1287,13 @@ func (c *FnCtx) loopHead(li *loopInfo, ent *State, edges []inEdge) *State {
 		hd.cells[k] = v.S
 	}
 	for _, f := range c.flags {
+		if !c.flagTouchedIn(f, li) {
+			// no call in the loop can raise this event: the flag keeps its entry value
+			if old, ok := ent.flags[f.id]; ok {
+				hd.flags[f.id] = old
+			}
+			continue
+		}
 		if f.ret {
 			hd.flags[f.id] = c.fresh(fmt.Sprintf("ret%d", f.id), f.sort)
 			continue
@@ -1704,8 +1716,21 @@ func mapKV(t types.Type) (types.Type, types.Type) {
 	return m.Key(), m.Elem()
 }
 
+func mapElemKey(t types.Type) string {
+	t = types.Unalias(t)
+	if _, ok := t.(*types.Named); ok {
+		if _, basic := t.Underlying().(*types.Basic); basic {
+			return typeKey(t)
+		}
+	}
+	return elemKey(t)
+}
+
 func (c *FnCtx) mapHeaps(K, V types.Type) (dn, ds, vn, vs string) {
-	k := elemKey(K) + "|" + elemKey(V)
+	// map types are convertible only when key and element types are IDENTICAL, so
+	// (unlike pointer/element heaps) map heaps are keyed by the named types: a
+	// map[K]EscapeStatus never aliases a map[K]edgeFlags
+	k := mapElemKey(K) + "|" + mapElemKey(V)
 	ks := c.sortOf(K)
 	return "MD|" + k, "(Array Int (Array " + ks + " Bool))", "MV|" + k, "(Array Int (Array " + ks + " " + c.sortOf(V) + "))"
 }
@@ -2091,6 +2116,15 @@ func (c *FnCtx) doNext(st *State, x *ssa.Next) {
 func (c *FnCtx) doReturn(st *State, x *ssa.Return) {
 	var vals []*Val
 	res := c.fn.Signature.Results()
+	if c.inl != nil {
+		res = c.inl.fn.Signature.Results()
+		for i, r := range x.Results {
+			v := c.val(st, r)
+			vals = append(vals, &Val{T: res.At(i).Type(), S: c.coerce(v, res.At(i).Type()), Tup: v.Tup})
+		}
+		c.inl.rets = append(c.inl.rets, &retSite{st: st.clone(), vals: vals, pos: c.curPos})
+		return
+	}
 	for i, r := range x.Results {
 		v := c.val(st, r)
 		vals = append(vals, &Val{T: res.At(i).Type(), S: c.coerce(v, res.At(i).Type()), Tup: v.Tup})
@@ -2189,7 +2223,20 @@ func (c *FnCtx) at(heapTerm Term, heapSort string, s Term, i Term) Term {
 		// heapSort = (Array Int (Array Int ELEM))
 		elem := strings.TrimSuffix(strings.TrimPrefix(heapSort, "(Array Int (Array Int "), "))")
 		c.declare(f, fmt.Sprintf("(declare-fun %s (Slice Int) %s)", f, elem))
-		c.asserts = append(c.asserts, fmt.Sprintf("(forall ((s Slice) (i Int)) (! (= (%s s i) (select (select %s (s_arr s)) (+ (s_off s) i))) :pattern ((%s s i))))", f, heapTerm, f))
+		pats := fmt.Sprintf(":pattern ((%s s i))", f)
+		if os.Getenv("GOVC_NOFWD") == "" {
+			// forward link: an element term of the PREVIOUS version of this heap also
+			// introduces the element term of this version (otherwise a witness index known
+			// for the old heap never reaches an `exists` goal stated over the new heap)
+			if c.atPrev == nil {
+				c.atPrev = map[string]string{}
+			}
+			if prev, ok := c.atPrev[elem]; ok {
+				pats += fmt.Sprintf(" :pattern ((%s s i))", prev)
+			}
+			c.atPrev[elem] = f
+		}
+		c.asserts = append(c.asserts, fmt.Sprintf("(forall ((s Slice) (i Int)) (! (= (%s s i) (select (select %s (s_arr s)) (+ (s_off s) i))) %s))", f, heapTerm, pats))
 	}
 	return app(f, s, i)
 }
